@@ -374,7 +374,7 @@ pub struct EntriesIter {
     iters: Vec<EntryIter>,
 
     // Stack of deferred directories to return after their contents
-    deferred: Vec<VfsEntry>,
+    deferred: Vec<Option<VfsEntry>>,
 
     // Optional filter that yields only entries that match the predicate
     #[allow(clippy::type_complexity)]
@@ -386,6 +386,7 @@ impl EntriesIter {
     /// None will be returned if the given entry was filtered out.
     fn process(&mut self, entry: VfsEntry) -> Option<RvResult<VfsEntry>> {
         let depth = self.iters.len(); // save depth before possible recursion
+        let mut descended = false; // tracks if an iterator was opened for this entry's contents
 
         if entry.is_dir() && (!entry.is_symlink() || self.opts.follow) {
             // Throw an error if link looping is detected
@@ -400,6 +401,7 @@ impl EntriesIter {
                     trying!((pre_op)(&entry));
                 }
                 self.iters.push(trying!((self.opts.iter_from)(entry.path(), self.opts.follow)));
+                descended = true;
 
                 // Cache entries if we've hit our open file descriptors max or if were sorting the
                 // entries.
@@ -421,25 +423,28 @@ impl EntriesIter {
             }
         }
 
-        // Return None if min depth marker is not satisfied
-        if depth < self.opts.min_depth {
-            return None;
-        }
-
-        // Defer directories as directed
-        if entry.is_dir() && self.opts.contents_first {
-            self.deferred.push(entry);
-            return None;
-        }
-
-        // Filter as directed
-        if let Some(filter) = &mut self.filter {
-            if !(filter)(&entry) {
-                return None;
+        // The entry is only wanted if the min depth marker is satisfied and it isn't filtered out
+        let mut wanted = depth >= self.opts.min_depth;
+        if wanted {
+            if let Some(filter) = &mut self.filter {
+                wanted = (filter)(&entry);
             }
         }
 
-        Some(Ok(entry))
+        // Keep one deferred slot per open iterator. The slot holds the directory itself when it is
+        // wanted and has to be yielded after its contents else it is just a place holder.
+        if descended {
+            if wanted && self.opts.contents_first {
+                self.deferred.push(Some(entry));
+                return None;
+            }
+            self.deferred.push(None);
+        }
+
+        match wanted {
+            true => Some(Ok(entry)),
+            false => None,
+        }
     }
 
     /// Filter on entries such that only entries that match the given predicate are returned
@@ -486,13 +491,6 @@ impl Iterator for EntriesIter {
 
         // Loop here to ensure that we get the next entry when filtering or deferring
         while !self.iters.is_empty() {
-            // Return deferred directories if we've already processed their children
-            if self.opts.contents_first && self.iters.len() < self.deferred.len() {
-                if let Some(entry) = self.deferred.pop() {
-                    return Some(Ok(entry));
-                }
-            }
-
             // Process the next entry from the current iterator
             match self.iters.last_mut().unwrap().next() {
                 Some(Ok(entry)) => match self.process(entry) {
@@ -507,15 +505,13 @@ impl Iterator for EntriesIter {
                             self.open_descriptors -= 1;
                         }
                     }
+
+                    // Return the directory that was deferred until its contents were processed
+                    if let Some(Some(entry)) = self.deferred.pop() {
+                        return Some(Ok(entry));
+                    }
                 },
             };
-        }
-
-        // Return root directory for deferred case
-        if self.opts.contents_first && self.iters.len() < self.deferred.len() {
-            if let Some(entry) = self.deferred.pop() {
-                return Some(Ok(entry));
-            }
         }
 
         None
